@@ -49,15 +49,29 @@ def patched_repo_file(rel):
 
 def harness_src(name):
     """harness sources hard-code /repo in their #include lines; rewritten when VERIF_REPO points elsewhere or when an
-    included /repo source needs a clang-compatibility rewrite"""
+    included /repo source needs a clang-compatibility rewrite (also inside the harness's own headers, whose rewritten
+    copies are placed next to the rewritten main file so that the quoted include finds them first)"""
+    def rewrite(txt):
+        out = txt
+        for rel in REPO_PATCHES:
+            inc = '"/repo/' + rel + '"'
+            if inc in out: out = out.replace(inc, '"' + patched_repo_file(rel) + '"')
+        if REPO != '/repo': out = out.replace('"/repo/', '"' + REPO + '/')
+        return out
     p = os.path.join(VERIF, 'harness', name)
-    txt = open(p).read(); out = txt
-    for rel in REPO_PATCHES:
-        inc = '"/repo/' + rel + '"'
-        if inc in out: out = out.replace(inc, '"' + patched_repo_file(rel) + '"')
-    if REPO != '/repo': out = out.replace('"/repo/', '"' + REPO + '/')
-    if out == txt: return p
+    txt = open(p).read(); out = rewrite(txt)
+    changed = out != txt
     os.makedirs(BUILD, exist_ok=True)
+    for h in re.findall(r'#include "([\w.]+\.h)"', txt):
+        hp = os.path.join(VERIF, 'harness', h)
+        if not os.path.exists(hp): continue
+        ht = open(hp).read(); ho = rewrite(ht)
+        hq = os.path.join(BUILD, h)
+        if ho != ht:
+            changed = True
+            if not os.path.exists(hq) or open(hq).read() != ho: open(hq, 'w').write(ho)
+        elif os.path.exists(hq): os.unlink(hq)
+    if not changed: return p
     q = os.path.join(BUILD, 'h_' + hashlib.md5(REPO.encode()).hexdigest()[:8] + '_' + name)
     if not os.path.exists(q) or open(q).read() != out: open(q, 'w').write(out)
     return q
